@@ -4,7 +4,7 @@
           relationship type);
    valid = accepted by the constructors (meaning <= 64, graphic-data rules). *)
 From Coq Require Import String ZArith List Bool QArith.
-From HD Require Import Base.Val C13_Model C13_Proofs C13_Proofs_Seq.
+From HD Require Import Base.Val C13_Model C13_Proofs C13_Proofs_Seq C13_Proofs_Num.
 Import ListNotations.
 Open Scope string_scope.
 Open Scope list_scope.
@@ -450,6 +450,50 @@ Theorem C13_subclass_assertion_needed : exists parent a,
 Proof. exact subclass_from_dataset_refuted. Qed.
 Print Assumptions C13_subclass_assertion_needed.
 
+(* full strength, for the code as it is: the template classes accept EXACTLY
+   the datasets of their parent's value type with every required attribute, a
+   complete concept name and acceptable children; everything else is rejected
+   with the error class of the parent *)
+Theorem C13_subclass_from_dataset_iff : forall parent a,
+  accept_sub true parent (DSet a) = Ok tt <->
+  (lookup "ValueType" a = Some (DStr (vt_str (class_vt parent))) /\
+   (forall k, In k (required parent) -> lookup k a <> None) /\
+   (exists s n, lookup "ConceptNameCodeSequence" a = Some s /\ code_first s = Ok n) /\
+   match lookup "ContentSequence" a with
+   | None => True
+   | Some (DSeq items) => Forall (fun d => accept None d = Ok tt) items /\
+                          Forall (fun d => rel_present d = Ok tt) items
+   | Some _ => False
+   end).
+Proof. exact subclass_from_dataset_iff. Qed.
+Print Assumptions C13_subclass_from_dataset_iff.
+
+Theorem C13_subclass_from_dataset_rejects : forall parent a,
+  (lookup "ValueType" a = None -> accept_sub true parent (DSet a) = Err "AttributeError") /\
+  (forall d, lookup "ValueType" a = Some d -> d <> DStr (vt_str (class_vt parent)) ->
+             accept_sub true parent (DSet a) = Err "ValueError") /\
+  (forall k, lookup "ValueType" a = Some (DStr (vt_str (class_vt parent))) ->
+             In k (required parent) -> lookup k a = None ->
+             accept_sub true parent (DSet a) = Err "AttributeError") /\
+  (lookup "ValueType" a = Some (DStr (vt_str (class_vt parent))) ->
+   (forall k, In k (required parent) -> lookup k a <> None) ->
+   lookup "ConceptNameCodeSequence" a = None -> accept_sub true parent (DSet a) = Err "AttributeError").
+Proof. exact subclass_from_dataset_rejects. Qed.
+Print Assumptions C13_subclass_from_dataset_rejects.
+
+Theorem C13_subclass_accepts_parent : forall parent a,
+  accept (Some parent) (DSet a) = Ok tt -> lookup "ConceptNameCodeSequence" a <> None ->
+  accept_sub true parent (DSet a) = Ok tt.
+Proof. exact subclass_accepts_parent. Qed.
+Print Assumptions C13_subclass_accepts_parent.
+
+Example C13_subclass_nonvacuous :
+  accept_sub true ScoordContentItem (DSet sub_witness) = Err "ValueError" /\
+  accept_sub true TextContentItem (DSet sub_witness) = Ok tt /\
+  accept_sub true TextContentItem (DSet (removelast sub_witness)) = Err "AttributeError".
+Proof. vm_compute. repeat split; reflexivity. Qed.
+Print Assumptions C13_subclass_nonvacuous.
+
 (* with the value-type assertion the rejection clause holds *)
 Theorem C13_subclass_from_dataset_asserting : forall parent a,
   accept_sub true parent (DSet a) = Ok tt ->
@@ -465,6 +509,24 @@ Theorem C13_subclass_from_dataset_checks : forall b parent a,
   exists s n, lookup "ConceptNameCodeSequence" a = Some s /\ code_first s = Ok n.
 Proof. exact subclass_from_dataset_checks. Qed.
 Print Assumptions C13_subclass_from_dataset_checks.
+
+(* ---- NumContentItem, int values: the exact decimal string is stored iff
+   -10^15 < v < 10^16 (len(str(v)) <= 16); then .value = float(v), which is v
+   itself for |v| < 2^53 ---- *)
+Theorem C13_num_int_exact : forall z, num_int_exact z = true <-> - 10 ^ 15 < z < 10 ^ 16.
+Proof. exact num_int_exact_spec. Qed.
+Print Assumptions C13_num_int_exact.
+
+Theorem C13_num_int_small_is_double : forall z, Z.abs z < 2 ^ 53 -> dbl_exact z = true.
+Proof. exact dbl_exact_small. Qed.
+Print Assumptions C13_num_int_small_is_double.
+
+Example C13_num_int_nonvacuous :
+  int_strlen (-999999999999999) = 16 /\ num_int_exact (-999999999999999) = true /\
+  num_int_exact (- 10 ^ 15) = false /\ num_int_exact (10 ^ 16 - 1) = true /\ num_int_exact (10 ^ 16) = false /\
+  dbl_exact (2 ^ 53 + 1) = false /\ dbl_exact (2 ^ 53 + 2) = true.
+Proof. vm_compute. repeat split; reflexivity. Qed.
+Print Assumptions C13_num_int_nonvacuous.
 
 (* ---- non-vacuity of the new statements ---- *)
 (* two faults: a bad enumerated value in the first child (accessor time) and a
